@@ -95,7 +95,11 @@ struct Gen {
 		}
 		// names that are plain tokens and still special: the label the writers give an unnamed objective, and what the library generates for unnamed rows / columns
 		if (m > 0 && r.chance(1, 14)) { static const char *sp[] = {"obj", "obj", "OBJ", "c1", "r_1", "c2_0", "freerow", "endrow", "stay", "boundary", "minrow", "subjectx"}; L.rows[r.below(L.rows.size())].name = sp[r.below(12)]; }
-		if (n > 0 && r.chance(1, 12)) { static const char *sp[] = {"obj", "x1", "c1", "x_2", "freedom", "free_1", "Freeze", "infty", "infinite", "minor", "maxim", "stx", "endcol", "boundsx", "integers2", "generalx", "binaryx", "max", "min", "st", "end", "bounds", "integer", "general", "binary", "subject", "to", "problem", "Maximize", "END"}; std::string nm = sp[r.below(30)];   /* plain tokens: like the writers' defaults, or beginning like a keyword of the LP format */ bool used = false; for (auto &c : L.cols) if (c.name == nm) used = true; if (!used) L.cols[r.below(L.cols.size())].name = nm; }
+		if (n > 0 && r.chance(1, 12)) { static const char *sp[] = {"obj", "x1", "c1", "x_2", "freedom", "free_1", "Freeze", "infty", "infinite", "minor", "maxim", "stx", "endcol", "boundsx", "integers2", "generalx", "binaryx", "max", "min", "st", "end", "bounds", "integer", "general", "binary", "subject", "to", "problem", "Maximize", "END"}; std::string nm = sp[r.below(30)];   /* plain tokens: like the writers' defaults, or beginning like a keyword of the LP format */ bool used = false; for (auto &c : L.cols) if (c.name == nm) used = true;
+			if (!used) { size_t jj = r.below(L.cols.size()); L.cols[jj].name = nm;
+				/* the LP writer puts the upper half of a ranged row on a line of its own, without a label: when the row begins with this column and
+				   its coefficient is 1, the line begins with the bare name */
+				if (m > 0 && r.chance(1, 2)) { PlanRow &R = L.rows[r.below(L.rows.size())]; if (R.sense != 'R') { R.sense = 'R'; R.range = pos(); } std::vector<std::pair<int, std::string>> nz2; nz2.push_back({(int)jj, "1"}); for (auto &e : R.nz) if (e.first > (int)jj) nz2.push_back(e); R.nz = nz2; } } }
 		// names that are no LP tokens: the LP writer has to repair them (and say the same name everywhere it uses it)
 		if (r.chance(1, 10)) { static const char *bad[] = {"x[1]", "2nd", "a-b", "q*r", "7up", "r<1>", "c=d", "k+1", "y[2,3]", "3"}; int k = r.range(1, 3);
 			for (int t = 0; t < k; t++) { std::string nm = bad[r.below(10)]; bool col = n > 0 && (m == 0 || r.chance(2, 3)); bool used = false; for (auto &c : L.cols) if (c.name == nm) used = true; for (auto &rr : L.rows) if (rr.name == nm) used = true; if (used) continue;
@@ -471,12 +475,13 @@ void profile_io(Gen &g, bool damage_heavy) {
 			if (r.chance(1, 2)) p.ops.push_back(g.gen_solve(0, ""));
 		} else {
 			Op f = g.mk(0, "foreign"); if (r.chance(1, 2)) g.seti(f, "o", r.below(4)); else g.seti(f, "lp", r.below(nl)); g.set(f, "fmt", r.chance(1, 2) ? "LP" : "MPS"); g.set(f, "path", strf("f%d", nfile++)); g.seti(f, "comp", r.below(3)); g.seti(f, "style", r.below(1000));
+			if (f.s("fmt") == "MPS" && r.chance(1, 3)) { g.seti(f, "badnames", 1 + r.below(50)); if (r.chance(1, 2)) g.seti(f, "style", 1 + 12 * r.below(83)); }   // MPS names are free text: a MIP model's x[1,2] (integer, half of the time) has to survive the LP writer's name repair
 			if ((damage_heavy || g.faults) && r.chance(1, 3) && g.ok("foreign:mal")) g.seti(f, "mal", r.range(1, 60));   // structurally malformed on purpose
 			p.ops.push_back(f);
 			if (damage_heavy || (g.faults && r.chance(1, 2))) { Op dm = g.mk(0, "damage"); g.seti(dm, "pick", r.below(8)); g.set(dm, "kind", std::vector<std::string>{"torn", "flip", "token", "token", "block_dup"}[r.below(5)]); g.seti(dm, "at", r.below(100000)); g.seti(dm, "len", r.below(56)); g.seti(dm, "bit", r.below(8)); p.ops.push_back(dm); }
 			Op rd = g.mk(0, "read"); g.seti(rd, "pick", -1); g.set(rd, "via", r.chance(1, 3) ? "reader" : "path"); io_faults(rd, false); p.ops.push_back(rd);
-			if (r.chance(1, 2)) {   // what was read from a foreign producer (integer marks, odd layouts) goes through the library's own writers
-				Op w2 = g.mk(0, "write"); g.seti(w2, "o", -1); g.set(w2, "fmt", r.chance(1, 2) ? "MPS" : "LP"); g.set(w2, "via", "path"); g.set(w2, "path", strf("f%d", nfile++)); g.seti(w2, "comp", r.below(3)); p.ops.push_back(w2);
+			if (r.chance(1, 2) || f.has("badnames")) {   // what was read from a foreign producer (integer marks, odd layouts, names the LP format cannot spell) goes through the library's own writers
+				Op w2 = g.mk(0, "write"); g.seti(w2, "o", -1); g.set(w2, "fmt", r.chance(1, 2) && !f.has("badnames") ? "MPS" : "LP"); g.set(w2, "via", "path"); g.set(w2, "path", strf("f%d", nfile++)); g.seti(w2, "comp", r.below(3)); p.ops.push_back(w2);
 				Op r2 = g.mk(0, "read"); g.seti(r2, "pick", -1); g.set(r2, "via", "path"); p.ops.push_back(r2);
 			}
 		}
